@@ -153,6 +153,13 @@ def run(ctx):
         c14.run(pr14)
         ctx.oblige("C01|list-decoders", not pr14.failed,
                    "a filtering list decoder alters, reorders or drops what it should deliver: %s" % "; ".join("%s: %s" % (k, m[:160]) for k, m in pr14.failed[:2]), cfg=cfg)
+        # a well-formed request may carry members this crate does not model (a descriptor's `transports`, new extensions ..): they
+        # must be skipped, not rejected -- C06's rules are a necessary condition of "decoding succeeds" as well
+        from . import c06
+        pr06 = Probe(facts={cfg: F})
+        c06.run(pr06)
+        ctx.oblige("C01|unknown-members", not pr06.failed,
+                   "a request type no longer skips the members it does not know: %s" % "; ".join("%s: %s" % (k, m[:160]) for k, m in pr06.failed[:2]), cfg=cfg)
         # "whose members respect the declared size limits": the capacities and widths a well-formed request may use are the
         # specification's (C12's limits table is a necessary condition: a smaller capacity rejects well-formed requests)
         from . import c12
